@@ -62,6 +62,15 @@ def independent_of(name, value, leaves):
     return Clause(name, "indep", jnp.asarray(value), lhs=list(leaves))
 
 
+def affine_in_draws(name, value, mean, cov):
+    """``value`` (flattened) must be an affine function of the standard-normal draws with constant part
+    ``mean`` and linear part J such that J J^T == ``cov`` (exact: coefficients are read off the symbolic
+    result, draws are the symbols produced by the random.normal kernel)."""
+    v, m, c = jnp.ravel(jnp.asarray(value)), jnp.ravel(jnp.asarray(mean)), jnp.asarray(cov)
+    assert m.shape == v.shape and c.shape == (v.size, v.size), (v.shape, m.shape, c.shape)
+    return Clause(name, "affine", jnp.concatenate([v, m, jnp.ravel(c)]), lhs=int(v.size))
+
+
 def define(name, out_leaf, expr):
     """Equality ``out_leaf == expr`` where ``out_leaf`` is literally a leaf of the result.
 
@@ -382,6 +391,41 @@ class Result:
     num_eqns: int = 0
 
 
+def _emit_affine(ctx, name, packed, n):
+    packed = packed if interp.is_obj(packed) else interp.to_obj(packed)
+    vals, means, covs = packed[:n], packed[n : 2 * n], packed[2 * n :].reshape(n, n)
+    draws = {sid for sid, info in enumerate(P.SYMS) if info["kind"] == "draw"}
+    const_part = []
+    rows = []
+    for i in range(n):
+        p = vals[i].p
+        c0 = {}
+        row = {}
+        ok = True
+        for m, c in p.t.items():
+            ds = [(s, e) for s, e in m if s in draws]
+            if not ds:
+                c0[m] = c
+            elif len(ds) == 1 and ds[0][1] == 1:
+                rest = tuple(x for x in m if x[0] != ds[0][0])
+                row.setdefault(ds[0][0], {})[rest] = c
+            else:
+                ok = False
+        ctx.obligations.append({"name": f"{name}.affine_in_draws[{i}]", "kind": "bool", "goal": P.TRUE if ok else P.FALSE, "path": [], "n_assm": 0})
+        const_part.append(P.Poly(c0))
+        rows.append({k: P.Poly(v) for k, v in row.items()})
+    for i in range(n):
+        ctx.oblige_eq(f"{name}.zero_draws_give_mean[{i}]", V(const_part[i]) - means[i])
+    for i in range(n):
+        for j in range(i, n):
+            acc = P.Poly()
+            for k, pi in rows[i].items():
+                pj = rows[j].get(k)
+                if pj is not None:
+                    acc = acc + pi * pj
+            ctx.oblige_eq(f"{name}.gram_of_linear_map_is_cov[{i},{j}]", V(acc) - covs[i, j])
+
+
 def dependency_cone(v):
     """All symbols a symbolic value depends on, through atoms and opaque (kernel/callee/stub) calls."""
     rec_of = {}
@@ -551,12 +595,17 @@ def _verify(contract, inst, res, seed, tier):
             which = None
             if c.kind == "indep":
                 which = [j for j, x in enumerate(ins) if any(x is l for l in c.lhs)]
+            if c.kind == "affine":
+                which = c.lhs
             metas.append((c.name, c.kind, which))
         return [(jnp.asarray(c.lhs) - c.value) if c.kind == "def" else c.value for c in cl], metas
 
     n_before = len(ctx.obligations)
     vals, meta = _trace_eval(ctx, ens, avals + out_avals, list(sym) + list(outs))
     for (nm, kind, which), val in zip(meta, vals):
+        if kind == "affine":
+            _emit_affine(ctx, f"ensures.{nm}", val, which)
+            continue
         if kind == "indep":
             forbidden = set()
             for j in which:
